@@ -19,6 +19,13 @@ inheriting from or being registered with collections.abc.Mapping (items()/keys()
 one-shot iterators), another ThresholdCounter (the class calls itself a "dict-like Mapping from keys to counts"; the
 additions are the pairs its items() reports just before the call), and empty arguments.  After every update() the
 caller empties the container it passed.
+updates='failing' configurations add update() calls whose source fails part-way after handing over well-formed keys /
+counts (a generator that raises, an iterator whose __next__ raises KeyError, a dict / keyword counts whose last count
+is None / 2.5 / '2', a duck-typed mapping whose items() iterator raises, a non-iterable argument).  Whether update()
+raises is not judged.  The statement does not say how many of the handed-over additions count; the object's total
+says how many it counted: i = total - additions before must lie in 0..handed over       C20|op:update(failing-source)|total-...
+and the stream continues with the first i of them as the additions made; an over-/under-count under that reading is
+reported only if no other choice of i of the handed-over unit additions explains the reported counts either.
 Key types: most configurations use 1-character strings; 'mixed:<r>' configurations draw the keys from a fixed list
 of pairwise unequal hashable objects of different, mutually unorderable types (None, int, str, complex, tuples
 holding None, float, bytes, frozenset), rotated by r.  Histories, true counts and reported cases stay in terms of key
@@ -81,6 +88,12 @@ MAP_KINDS = {'mo': 'OrderedDict', 'mf': 'defaultdict', 'mh': 'ChainMap', 'ms': '
              'ma': 'collections.abc.Mapping-subclass'}
 # ... and objects that implement the whole Mapping protocol without inheriting from / being registered with it
 DUCK_KINDS = {'mq': 'duck-typed-mapping(lists)', 'mi': 'duck-typed-mapping(iterators)'}
+# update() calls whose *source* fails part-way (the keys / counts handed over before the failure are well-formed):
+FAIL_KINDS = {'xg': 'generator-that-raises', 'xr': 'iterator-whose-__next__-raises-KeyError',
+              'xm': 'dict-with-a-non-integer-count-last', 'xq': 'duck-typed-mapping-whose-items()-raises',
+              'xk': 'list,**counts-with-a-non-integer-count-last', 'xn': 'non-iterable'}
+BAD_COUNTS = (None, 2.5, '2')     # range(count) refuses them
+FAIL_SHAPE = 'update(failing-source)'
 
 
 def key_name(i):
@@ -172,11 +185,65 @@ def textbook_size(ws, stream):
     return best
 
 
+def failing(op):
+    return not isinstance(op, str) and op[0] in FAIL_KINDS
+
+
+def offered(op):
+    """The unit additions (key, 1) a failing source hands over, in its order, before it fails."""
+    kind = op[0]
+    if kind == 'xn':
+        return []
+    if kind in ('xg', 'xr'):
+        return [(k, 1) for k in op[1]]
+    if kind in ('xm', 'xq'):
+        return [(k, 1) for k, n in op[1] for _ in range(n)]
+    if kind == 'xk':
+        return [(k, 1) for k in op[1]] + [(k, 1) for k, n in op[2] for _ in range(n)]
+    raise AssertionError(op)
+
+
+def account(model, op, r, tc):
+    """Book the additions of an executed operation r = impl_apply(...) into the true counts.  An update() whose
+    source failed stands for the first i unit additions the source handed over, i = total - additions so far (the
+    statement leaves open how many of them count; total says how many the object counted).  Returns None, or
+    (total, offered units) when total is no such number."""
+    if not failing(op):
+        model.apply(op, r[2])
+        return None
+    units = r[2]
+    for k, _ in units:
+        model.true.setdefault(k, 0)
+    total = guarded(lambda: tc.total)
+    i = total - model.adds if type(total) is int else -1
+    if not 0 <= i <= len(units):
+        return (total, units)
+    model.apply(op, units[:i])
+    return None
+
+
+def other_reading_possible(before, units, total, reported, slack):
+    """Could *some* choice of total - before.adds of the offered unit additions (not necessarily the first ones) be
+    the true counts behind the reported ones?  x_k of key k's offered units count, 0 <= x_k <= offered_k,
+    sum x_k = total - before.adds, reported_k <= before_k + x_k <= reported_k + slack."""
+    off = collections.Counter(k for k, _ in units)
+    lo_sum = hi_sum = 0
+    for k, c in reported.items():
+        tb = before.true.get(k, 0)
+        lo, hi = max(0, c - tb), min(off.get(k, 0), slack + c - tb)
+        if lo > hi:
+            return False
+        lo_sum, hi_sum = lo_sum + lo, hi_sum + hi
+    return lo_sum <= total - before.adds <= hi_sum
+
+
 def additions(op):
     """The additions an operation stands for, as (key, n) in the order of the argument."""
     if isinstance(op, str):
         return [(op, 1)]
     kind = op[0]
+    if kind in FAIL_KINDS:
+        raise AssertionError('the additions of an update() whose source fails are settled by account(): %r' % (op,))
     if kind in ('ul', 'ut', 'ug', 'us') or kind in ITER_KINDS:
         return [(k, 1) for k in op[1]]
     if kind in ('md', 'mc', 'mp', 'mu', 'mt') or kind in MAP_KINDS or kind in DUCK_KINDS:
@@ -202,8 +269,9 @@ _LABEL = {'ul': 'update(list)', 'ut': 'update(tuple)', 'ug': 'update(generator)'
           'kw': 'update(list,**counts)', 'mkw': 'update(dict,**counts)',
           've': 'update(self.elements())', 'vk': 'update(self.iterkeys())',
           'mt': 'update(another ThresholdCounter)'}
-for _kinds in (ITER_KINDS, MAP_KINDS, DUCK_KINDS):
+for _kinds in (ITER_KINDS, MAP_KINDS, DUCK_KINDS, FAIL_KINDS):
     _LABEL.update({k: 'update(%s)' % v for k, v in _kinds.items()})
+_SHAPE.update({k: FAIL_SHAPE for k in FAIL_KINDS})
 
 
 def opsig(op):
@@ -327,6 +395,36 @@ class DuckMap:
         del self._pairs[:]
 
 
+class SourceFailed(Exception):
+    pass
+
+
+def failing_gen(items):
+    for x in items:
+        yield x
+    raise SourceFailed('the source of the keys failed')
+
+
+class FailingIter:
+    """An iterator over keys whose __next__ raises KeyError once they are used up."""
+
+    def __init__(self, keys):
+        self._it = iter(list(keys))
+
+    def __iter__(self):
+        return self
+
+    def __next__(self):
+        for k in self._it:
+            return k
+        raise KeyError('lookup behind the source failed')
+
+
+class FailingDuck(DuckMap):
+    def items(self):
+        return failing_gen(list(self._pairs))
+
+
 def make_argument(kind, keys, pairs):
     """The positional argument of update() for an operation kind -> (argument, object the caller edits afterwards)."""
     if kind == 'ul':
@@ -410,6 +508,23 @@ def impl_apply(tc, op, enc=_same, dec=_same):
             tc.update(src)
             for k, n in op[1]:                       # the caller goes on using its other counter
                 src.add(enc(k))
+            return ('ok', None, fed)
+        if kind in FAIL_KINDS:
+            fed = offered(op)
+            if kind == 'xn':
+                tc.update(5)
+            elif kind == 'xg':
+                tc.update(failing_gen([enc(k) for k in op[1]]))
+            elif kind == 'xr':
+                tc.update(FailingIter([enc(k) for k in op[1]]))
+            elif kind == 'xm':
+                tc.update(dict([(enc(k), n) for k, n in op[1]] + [(enc(NEVER), BAD_COUNTS[op[2]])]))
+            elif kind == 'xq':
+                tc.update(FailingDuck([(enc(k), n) for k, n in op[1]]))
+            else:
+                kw = {enc(k): n for k, n in op[2]}
+                kw[enc(NEVER)] = None
+                tc.update([enc(k) for k in op[1]], **kw)
             return ('ok', None, fed)
         keys = pairs = None
         if kind[0] == 'm':
@@ -503,7 +618,7 @@ class Spec:
         self.wf, self.we = widths(threshold)
         self.w_slack = min(self.wf, self.we)     # the more permissive reading where the two differ
         self.config = {'threshold': threshold, 'search': mode, 'keys': nkeys,
-                       'updates': updates if updates in ('views', 'shapes') else bool(updates),
+                       'updates': updates if updates in ('views', 'shapes', 'failing') else bool(updates),
                        'max_ops': depth, 'w=floor(1/threshold)': self.wf, 'w(exact rational)': self.we,
                        '2/threshold': 2 / threshold, 'key_types': key_types}
         if key_types == 'str':
@@ -562,7 +677,7 @@ class Spec:
         tc, model = self.new(), Model()
         for op in hist:
             r = impl_apply(tc, op, self.enc, self.dec)
-            model.apply(op, r[2])
+            account(model, op, r, tc)
         return tc, model
 
     def root_key(self, hist):
@@ -634,6 +749,13 @@ class Spec:
         else:
             x = used[0]
             y = key_name(m) if m < self.nkeys else used[-1]
+        if self.updates == 'failing':                    # sources that fail part-way, next to two that do not
+            ops = [('xg', (y, x, y)), ('xg', (x,)), ('xg', ()), ('xr', (x, y)), ('xm', ((x, 2), (y, 1)), 0),
+                   ('xm', ((y, 1),), 1), ('xm', (), 2), ('xq', ((y, 1), (x, 2))), ('xn',),
+                   ('ul', (y, x, y)), ('md', ((x, 2),))]
+            if self.key_types == 'str':
+                ops += [('xk', (x,), ((y, 1),)), ('xk', (), ((x, 2),))]
+            return ops
         if self.updates == 'shapes':                     # further types of iterable / mapping, empty arguments
             ops = [(kind, (y, x, y)) for kind in ITER_KINDS if kind not in ('uS', 'uF', 'uv')]
             ops += [('uS', (x, y)), ('uF', (y,)), ('uv', (y, x)), ('ul', ()), ('ug', ()), ('md', ()), ('mq', ())]
@@ -699,9 +821,15 @@ class Spec:
 
         self.look_before(tc)
         r = impl_apply(tc, op, self.enc, self.dec)
-        model.apply(op, r[2])
+        before = model.copy() if failing(op) else None
+        off = account(model, op, r, tc)
         label = (oplabel(op), 'ok' if r[0] == 'ok' else r[1])
-        if r[0] != 'ok':
+        if off is not None:
+            bad('op', 'total-not-between-additions-before-and-before+offered',
+                '%d <= total <= %d' % (model.adds, model.adds + len(off[1])), off[0],
+                detail={'the source handed over before failing': off[1], 'the call': label[1]})
+            return V, False, label
+        if r[0] != 'ok' and before is None:
             bad('op', 'raised', 'returns', r[1])
             return V, False, label
         total = guarded(lambda: tc.total)
@@ -711,6 +839,7 @@ class Spec:
         slack = model.adds // self.w_slack
         ok = True
         per = {}
+        reported = {}
         for k in list(model.true) + [NEVER]:
             t = model.true.get(k, 0)
             present = guarded(lambda: self.enc(k) in tc)
@@ -721,6 +850,7 @@ class Spec:
             if type(c) is not int:
                 bad('op', 'per-key-count-not-an-int', 'an int', c)
                 return V, False, label
+            reported[k] = c
             if present:
                 per[k] = c
             if c > t:
@@ -733,6 +863,9 @@ class Spec:
                     detail={'key': k, 'last operation': oplabel(op)})
                 ok = False
         if not ok:
+            if before is not None and other_reading_possible(before, r[2], total, reported, slack):
+                del V[:]          # counts that fit another choice of the offered additions than the first ones: no
+                #                   verdict, and (ok False) no continuation either
             return V, False, label
         n = guarded(lambda: len(tc))
         if type(n) is int and exceeds_bound(n, self.threshold):
@@ -914,6 +1047,8 @@ def configs(tier):
             (0.1, A, 5, 'views', 8), (0.25, A, 4, 'views', 7, 'mixed:6'),
             (0.5, A, 3, 'shapes', 5), (0.3, A, 3, 'shapes', 4), (0.25, A, 3, 'shapes', 5),
             (0.25, A, 3, 'shapes', 4, 'mixed:1'),
+            (0.5, A, 3, 'failing', 6), (0.3, A, 3, 'failing', 5), (0.25, A, 3, 'failing', 6),
+            (0.001, A, 3, 'failing', 4), (0.34, A, 3, 'failing', 5, 'mixed:4'),
             (0.5, B, None, False, 32), (third, B, None, False, 30), (0.25, B, None, False, 30),
             (0.19, B, None, False, 30), (sixth, B, None, False, 36),
         ]
@@ -932,6 +1067,8 @@ def configs(tier):
         (0.25, A, 4, 'views', 8, 'mixed:6'),
         (0.5, A, 3, 'shapes', 6), (0.3, A, 3, 'shapes', 5), (0.25, A, 3, 'shapes', 6), (0.19, A, 3, 'shapes', 5),
         (0.001, A, 3, 'shapes', 3), (0.25, A, 3, 'shapes', 5, 'mixed:1'), (0.34, A, 4, 'shapes', 4, 'mixed:7'),
+        (0.5, A, 3, 'failing', 7), (0.3, A, 3, 'failing', 6), (0.25, A, 3, 'failing', 7), (0.19, A, 3, 'failing', 6),
+        (0.001, A, 3, 'failing', 5), (0.34, A, 3, 'failing', 6, 'mixed:4'), (0.25, A, 4, 'failing', 5, 'mixed:9'),
         (0.5, B, None, False, 40), (0.34, B, None, False, 40), (third, B, None, False, 40), (0.3, B, None, False, 40),
         (0.25, B, None, False, 40), (0.21, B, None, False, 40), (0.19, B, None, False, 40), (0.17, B, None, False, 36),
         (sixth, B, None, False, 38), (0.15, B, None, False, 36), (seventh, B, None, False, 42),
@@ -967,7 +1104,9 @@ def run(ctx):
         'identical record), state = total, bucket, sorted (tracked, count, entry, true count) records; updates=True adds '
         'the update() argument shapes of update_menu, updates=views adds update(self.elements()) / '
         'update(self.iterkeys()) (additions = the keys the view is seen to yield), updates=shapes adds further '
-        'iterable / mapping / duck-typed mapping / ThresholdCounter / empty arguments; key_types mixed:<r> uses keys of '
+        'iterable / mapping / duck-typed mapping / ThresholdCounter / empty arguments, updates=failing adds update() '
+        'calls whose source fails after handing over some keys / counts (additions = the first total - before of '
+        'them); key_types mixed:<r> uses keys of '
         'mutually unorderable types.  Every transition is: caller reads the views and edits the returned lists, the '
         'operation, state oracle, reads; for histories of <= %d operations a second round of reads after the caller '
         'edited the lists returned by the first.  size: unlimited ' % SECOND_LOOK_OPS +
@@ -993,6 +1132,12 @@ def run(ctx):
         'own documentation a "dict-like Mapping from keys to counts"; it has keys/items/values/get/__getitem__/__len__/'
         '__contains__ but no __iter__) is passed as the mapping in update(ThresholdCounter), reported under its own '
         'op shape',
+        'update() with a source that fails part-way (updates=failing): the additions made by the call are the first '
+        'total - additions_before of the unit additions the source handed over before failing (any number from none - '
+        'all-or-nothing - to all of them is accepted, whether or not the exception propagates); all demands of the '
+        'statement then hold for that stream and every later operation.  An over-/under-count is reported only if no '
+        'choice of that many handed-over unit additions explains the reported counts.  Unhashable keys are outside '
+        'the domain (the statement speaks of keys of a counter) and not passed',
         'lists returned by items/keys/values/most_common and containers passed to update() belong to the caller: editing '
         'them afterwards is no operation on the counter, the statement\'s demands on later reads are unchanged',
         'most_common(0) is the top 0 pairs: an empty list',
